@@ -66,7 +66,7 @@ PROPS = {
               "abs_diff_ne!: the scalar's abs_diff_eq with default epsilon, specified by ApproxSpecR (|a-b| <= eps); for Xq eps = 2^-52",
               "planar with fovy = 0 divides by zero in exact arithmetic (IEEE infinity in floats): float-only limit case, not claimed"],
              trusted=["rustc monomorphisation of the generic code at Xq"]),
-    "C14": P(14, axioms=R_AXIOMS, axiom_patterns=[r"PrimInt63\..*", r"Uint63\..*", r"PrimFloat\..*", r"FloatAxioms\..*", r"Sint63\..*", r"FloatOps\..*"],
+    "C14": P(14, thorough_scale=4, axioms=R_AXIOMS, axiom_patterns=[r"PrimInt63\..*", r"Uint63\..*", r"PrimFloat\..*", r"FloatAxioms\..*", r"Sint63\..*", r"FloatOps\..*"],
              assumptions=["model (coq/Model/Quaternion.v: quat_lerp, quat_nlerp, quat_slerp; Vector.v: v*_lerp) is hand-written; tied to /repo by the exact-arithmetic correspondence of this run",
               "nlerp/slerp theorems are over the reals (sqrt, sin, acos of the standard library) for unit a, b and t in [0,1]; lerp over any commutative ring",
               "threshold: the code compares |a.b| with cast(0.9995f64) (0.9995 + 5.5e-17): exact constant angular speed is proved for |a.b| <= cast(0.9995), the 1e-5 rad bound beyond it",
@@ -76,7 +76,7 @@ PROPS = {
                   "(generic angle, close (dot 0.9998), just above the threshold, nearly a right angle; b and -b); slerp exact region: lattice angles k*beta with t = j/k (incl. just below the threshold, wide, "
                   "b and -b, endpoints); native f64: all separations, multi-scale sweep around the threshold, nearly opposite, around a right angle; non-trivial = tag nt:*; distinct by hash",
              trusted=["rustc monomorphisation of the generic code at Xq and f64", "libm for the native f64 predicate"]),
-    "C15": P(15, axioms=R_AXIOMS, axiom_patterns=[r"PrimInt63\..*", r"Uint63\..*", r"PrimFloat\..*", r"FloatAxioms\..*", r"Sint63\..*", r"FloatOps\..*"],
+    "C15": P(15, thorough_scale=8, axioms=R_AXIOMS, axiom_patterns=[r"PrimInt63\..*", r"Uint63\..*", r"PrimFloat\..*", r"FloatAxioms\..*", r"Sint63\..*", r"FloatOps\..*"],
              assumptions=["model (coq/Model/Rotation.v: quat_between_vectors, basis3/basis2_between_vectors, quat_from_arc) is hand-written; tied to /repo by the exact-arithmetic correspondence of this run",
               "theorems are over the reals; ulps_eq! is an oracle specified by UlpsSpec (reflexive; a true answer means |x-y| <= eps + rel max(|x|,|y|)); C15_tolerances instantiates the binary64 parameters",
               "between_vectors' first test compares a.b with 1 (unit vectors are the documented domain); the general-branch theorem is also proved for arbitrary non-zero lengths",
